@@ -535,7 +535,12 @@ func idOfNode(key, v ssa.Value) bool {
 			}
 			return false
 		default:
-			// the id value used to find v: an argument of mgr.Node(...) / NewRawNodeWithID among v's sources
+			// the id value used to find v: an argument of mgr.Node(...) / NewRawNodeWithID among v's sources.
+			// It must be an id: the address text as written does not identify a node (one server can be
+			// spelled in several ways).
+			if b, isB := key.Type().Underlying().(*types.Basic); !isB || b.Kind() != types.Uint32 {
+				return false
+			}
 			ok := false
 			for _, vo := range sx.Origins(v) {
 				if cc, isCall := vo.V.(*ssa.Call); isCall && vo.Kind == sx.KExtract {
